@@ -185,6 +185,21 @@ pub trait Prop: Sync {
     fn workers(&self) -> usize {
         16
     }
+    /// Coverage-guided tier (fuzzdrv.rs): ids of the decoders (properties whose `check` turns a
+    /// libFuzzer input, read as a choice tape, into a case) to run for this property.  Empty =
+    /// the property is decided on separate processes / schedules, where in-process coverage
+    /// feedback has nothing to steer.
+    fn fuzz_decoders(&self) -> Vec<&'static str> {
+        vec![self.id()]
+    }
+    /// default wall-clock budget of the coverage-guided tier in the thorough tier (seconds)
+    fn fuzz_default_secs(&self) -> u64 {
+        240
+    }
+    /// decoder-specific golden seed inputs (already in the decoder's byte layout)
+    fn fuzz_seeds(&self, _seed: u64) -> Vec<Vec<u8>> {
+        Vec::new()
+    }
 }
 
 // ---------------------------------------------------------------------------------------------
@@ -758,6 +773,15 @@ pub fn supervisor_main(prop: &dyn Prop, a: &RunArgs) -> i32 {
         run_workers(prop, a, &run_dir, nworkers, &mut sup);
     }
 
+    // 2b. coverage-guided tier (libFuzzer over the same generators and oracles), thorough tier or
+    //     when VERIF_FUZZ_SECS is set
+    if sup.infra_errors.is_empty() {
+        match guarded(|| crate::fuzzdrv::fuzz_phase(prop, a, &mut sup)) {
+            Ok(()) => {}
+            Err(p) => sup.infra_errors.push(format!("fuzz phase panicked: {} {}", p.location, p.message)),
+        }
+    }
+
     // 3. property-specific supervisor phases (binary, pipes, enumerations)
     if sup.infra_errors.is_empty() {
         match guarded(|| prop.supervisor_phase(&mut sup)) {
@@ -1115,4 +1139,124 @@ pub fn replay_main(prop: &dyn Prop, file: &Path, quiet: bool) -> i32 {
             1
         }
     }
+}
+
+// ---------------------------------------------------------------------------------------------
+// generic tape shrinking (used for failures found by the coverage-guided tier, which does not
+// shrink by itself): shorter tape, then smaller values, while the failure keeps its signature
+
+pub fn shrink_main(prop: &dyn Prop, file: &Path) -> i32 {
+    install_panic_hook();
+    crate::exittrap::capture_stderr();
+    let v: Value = match fs::read_to_string(file).ok().and_then(|s| serde_json::from_str(&s).ok()) {
+        Some(v) => v,
+        None => return 2,
+    };
+    let identity: Vec<String> = v["identity"].as_array().map(|a| a.iter().map(|x| x.as_str().unwrap_or("").to_string()).collect()).unwrap_or_else(|| prop.identities()[0].clone());
+    dut::verif_api::set_calling_process(&identity);
+    let scratch = verif_root().join("target/scratch");
+    let _ = fs::create_dir_all(&scratch);
+    let mut ctx = Ctx::new(Tier::Quick, 0, identity.clone(), scratch, 95);
+    ctx.replay = true;
+    ctx.strict = true;
+    let mut tape = tape_from_json(&v["tape"]);
+    let mut run = |t: &[u32], ctx: &mut Ctx| -> Option<String> {
+        let mut tp = Tape::new(t.to_vec());
+        match guarded(|| prop.check(&mut tp, ctx)) {
+            Ok(Verdict::Fail(f)) => Some(f.signature),
+            Ok(_) => None,
+            Err(p) => Some(p.failure().signature),
+        }
+    };
+    let want = match run(&tape, &mut ctx) {
+        Some(s) => s,
+        None => {
+            println!("{}", json!({"tape": tape_to_json(&tape), "reproduced": false}));
+            return 0;
+        }
+    };
+    let t0 = Instant::now();
+    let mut evals = 0usize;
+    let budget = 6000usize;
+    let mut ok = |t: &[u32], ctx: &mut Ctx, evals: &mut usize| -> bool {
+        if *evals >= budget || t0.elapsed() > Duration::from_secs(120) {
+            return false;
+        }
+        *evals += 1;
+        run(t, ctx).as_deref() == Some(want.as_str())
+    };
+    // 1. cut the tail (an exhausted tape reads as zeros = simplest choices)
+    let (mut lo, mut hi) = (0usize, tape.len());
+    while lo < hi {
+        let mid = (lo + hi) / 2;
+        if ok(&tape[..mid], &mut ctx, &mut evals) {
+            hi = mid;
+        } else {
+            lo = mid + 1;
+        }
+    }
+    if hi < tape.len() && ok(&tape[..hi], &mut ctx, &mut evals) {
+        tape.truncate(hi);
+    }
+    // 2. zero chunks, then single values; 3. delete chunks; 4. halve values
+    let mut chunk = (tape.len() / 2).max(1);
+    while chunk >= 1 {
+        let mut i = 0;
+        while i < tape.len() {
+            let end = (i + chunk).min(tape.len());
+            if tape[i..end].iter().any(|x| *x != 0) {
+                let mut c = tape.clone();
+                for x in &mut c[i..end] {
+                    *x = 0;
+                }
+                if ok(&c, &mut ctx, &mut evals) {
+                    tape = c;
+                }
+            }
+            i = end;
+        }
+        if chunk == 1 {
+            break;
+        }
+        chunk /= 2;
+    }
+    let mut chunk = (tape.len() / 4).max(1);
+    while chunk >= 1 {
+        let mut i = 0;
+        while i + chunk <= tape.len() {
+            let mut c = tape.clone();
+            c.drain(i..i + chunk);
+            if ok(&c, &mut ctx, &mut evals) {
+                tape = c;
+            } else {
+                i += chunk;
+            }
+        }
+        if chunk == 1 {
+            break;
+        }
+        chunk /= 2;
+    }
+    for _round in 0..6 {
+        let mut changed = false;
+        for i in 0..tape.len() {
+            if tape[i] == 0 {
+                continue;
+            }
+            let mut c = tape.clone();
+            c[i] /= 2;
+            if ok(&c, &mut ctx, &mut evals) {
+                tape = c;
+                changed = true;
+            }
+        }
+        if !changed {
+            break;
+        }
+    }
+    while tape.last() == Some(&0) {
+        tape.pop();
+    }
+    println!("{}", json!({"tape": tape_to_json(&tape), "reproduced": true, "signature": want, "evaluations": evals}));
+    0
 }
